@@ -1,4 +1,4 @@
-use crate::parse::{parse_quoted, whitespace, ParseCtx};
+use crate::parse::{whitespace, ParseCtx};
 use crate::print::{AppendCtx, Print, PrintCtx};
 use crate::uri::Uri;
 use bytesstr::BytesStr;
@@ -7,6 +7,7 @@ use nom::branch::alt;
 use nom::bytes::complete::{tag, take_while, take_while1};
 use nom::combinator::{map, opt};
 use nom::sequence::{delimited, tuple};
+use std::borrow::Cow;
 use std::fmt;
 
 /// Represents an URI with a display name or just a URI
@@ -47,16 +48,13 @@ impl NameAddr {
             map(
                 alt((
                     tuple((
-                        opt(alt((parse_quoted, take_while1(display)))),
+                        opt(display_name(ctx)),
                         take_while(whitespace),
                         delimited(tag("<"), ctx.parse_uri(), tag(">")),
                     )),
                     map(ctx.parse_uri(), |uri| (None, "", uri)),
                 )),
-                move |(name, _, uri)| Self {
-                    name: name.map(|name| BytesStr::from_parse(ctx.src, name.trim())),
-                    uri,
-                },
+                move |(name, _, uri)| Self { name, uri },
             )(i)
         }
     }
@@ -66,16 +64,13 @@ impl NameAddr {
             map(
                 alt((
                     tuple((
-                        opt(alt((parse_quoted, take_while1(display)))),
+                        opt(display_name(ctx)),
                         take_while(whitespace),
                         delimited(tag("<"), ctx.parse_uri(), tag(">")),
                     )),
                     map(ctx.parse_uri_no_params(), |uri| (None, "", uri)),
                 )),
-                move |(name, _, uri)| Self {
-                    name: name.map(|name| BytesStr::from_parse(ctx.src, name.trim())),
-                    uri,
-                },
+                move |(name, _, uri)| Self { name, uri },
             )(i)
         }
     }
@@ -84,11 +79,76 @@ impl NameAddr {
 impl Print for NameAddr {
     fn print(&self, f: &mut fmt::Formatter<'_>, ctx: PrintCtx<'_>) -> fmt::Result {
         if let Some(name) = &self.name {
-            write!(f, "\"{}\"", name)?;
+            // quoted-string, `"` and `\` have to be escaped (RFC 3261 25.1)
+            f.write_str("\"")?;
+
+            for c in name.chars() {
+                if matches!(c, '"' | '\\') {
+                    f.write_str("\\")?;
+                }
+
+                write!(f, "{}", c)?;
+            }
+
+            f.write_str("\"")?;
         }
 
         write!(f, "<{}>", self.uri.print_ctx(ctx))
     }
+}
+
+/// Display name in front of `<uri>`: a quoted-string, taken as it is between the quotes with
+/// the escapes resolved, or a sequence of tokens with the surrounding blanks removed
+fn display_name(ctx: ParseCtx<'_>) -> impl Fn(&str) -> IResult<&str, BytesStr> + '_ {
+    move |i| {
+        alt((
+            map(parse_quoted_string, |name| match name {
+                Cow::Borrowed(name) => BytesStr::from_parse(ctx.src, name),
+                Cow::Owned(name) => BytesStr::from(name),
+            }),
+            map(take_while1(display), |name: &str| {
+                BytesStr::from_parse(ctx.src, name.trim())
+            }),
+        ))(i)
+    }
+}
+
+/// `"` *(qdtext / quoted-pair) `"`, returns the content with `\x` replaced by `x`
+fn parse_quoted_string(i: &str) -> IResult<&str, Cow<'_, str>> {
+    let (content, _) = tag("\"")(i)?;
+
+    let mut unescaped: Option<String> = None;
+    let mut chars = content.char_indices();
+
+    while let Some((pos, c)) = chars.next() {
+        match c {
+            '"' => {
+                let name = match unescaped {
+                    Some(unescaped) => Cow::Owned(unescaped),
+                    None => Cow::Borrowed(&content[..pos]),
+                };
+
+                return Ok((&content[pos + 1..], name));
+            }
+            '\\' => {
+                let unescaped = unescaped.get_or_insert_with(|| content[..pos].to_owned());
+
+                match chars.next() {
+                    Some((_, escaped)) => unescaped.push(escaped),
+                    None => break,
+                }
+            }
+            c => {
+                if let Some(unescaped) = &mut unescaped {
+                    unescaped.push(c);
+                }
+            }
+        }
+    }
+
+    Err(nom::Err::Error(nom::error::VerboseError {
+        errors: vec![(i, nom::error::VerboseErrorKind::Context("unterminated quoted string"))],
+    }))
 }
 
 fn display(c: char) -> bool {
